@@ -206,7 +206,7 @@ def writeBack (mode : Nat) (STATES : List (List Nat)) :
 
 /-- `HMM.estimate(track, obs, log, mode)`: the object and the track after the call, and the exception if one
 was raised (the effects made before it stay) -/
-def estimate [Add α] [Neg α] [LT α] [DecidableLT α] (nm : Num α) (h : Obj α) (tr : Trk α)
+def estimate [Add α] [Neg α] [LT α] [DecidableLT α] [BEq α] (nm : Num α) (h : Obj α) (tr : Trk α)
     (obs : List String) (log : Bool) (mode : Nat) : Obj α × Trk α × Option Err :=
   let h := { h with log := h.log || log }
   let STATES := (List.range tr.size).map (h.S tr)
@@ -278,7 +278,7 @@ def domainError [Add α] (nm : Num α) (h : Obj α) (tr : Trk α) (STATES : List
 /-- `HMM.estimate` for any return type of `S` and any numbers returned by `P`, `Q`: `TypeError` when some
 `S(track, k)` has no length; otherwise, when the observations can be compiled and the track is not empty, `ValueError`
 when a value that is to be converted is outside the domain of `math.log`; otherwise `estimate` on the items. -/
-def estimateS [Add α] [Neg α] [LT α] [DecidableLT α] (nm : Num α) (h : ObjS α) (tr : Trk α)
+def estimateS [Add α] [Neg α] [LT α] [DecidableLT α] [BEq α] (nm : Num α) (h : ObjS α) (tr : Trk α)
     (obs : List String) (log : Bool) (mode : Nat) : ObjS α × Trk α × Option Err :=
   if (List.range tr.size).all (fun k => (h.S tr k).isSized) then
     let o := h.toObj
@@ -341,7 +341,7 @@ def callsOf [Add α] (nm : Num α) (log : Bool) (h : ObjX α) (tr : Trk α) (STA
 the first failing call of the first column / forward pass being a user function's exception: that exception, nothing
 written; in every other case `estimateS` (a `TypeError`, an error of the observations, a `ValueError` of `math.log`
 that comes first, or the decoding). -/
-def estimateX [Add α] [Neg α] [LT α] [DecidableLT α] (nm : Num α) (h : ObjX α) (tr : Trk α)
+def estimateX [Add α] [Neg α] [LT α] [DecidableLT α] [BEq α] (nm : Num α) (h : ObjX α) (tr : Trk α)
     (obs : List String) (log : Bool) (mode : Nat) : Bool × Trk α × Option Err :=
   if (List.range tr.size).any (fun k => (h.S tr k).isNone) then (h.log || log, tr, some .user)
   else
